@@ -50,7 +50,7 @@ LEVEL_TEXT = ("Generated-input exploration: thousands of random valid "
               "absence.")
 LEVEL_NOTE = ("Tolerance 1e-4 relative to the magnitude of the terms summed "
               "(TOL_F); for PWL a conditioning term sum|dy_i|*min(1, "
-              "8*eps32*(|x|+|k_i|+|k_i+1|)/len_i) is added for segments x lies "
+              "2*(k+2)*eps32*(|x|+max|keypoint|)/len_i) is added for segments x lies "
               "in or next to (float32 keypoints of very short segments). CDF "
               "geometric mean excluded as stated. KFL/Lattice with "
               "clip_inputs=False are only evaluated inside the lattice domain. "
@@ -406,7 +406,11 @@ def _pwl_cond_tol(x, kp, kernel):
     left, right = kk[:, :-1], kk[:, 1:]
     ln = right - left
     xx = x[i][:, None]
-    a = 4 * EPS32 * (np.abs(xx) + np.abs(left) + np.abs(right))
+    # keypoints are a float32 running sum of k gaps: their positions carry an
+    # error of up to ~(k + 2) ulp32 of the largest keypoint magnitude.
+    nkp = kk.shape[1]
+    a = (nkp + 2) * EPS32 * (np.abs(xx) + np.max(np.abs(kk), axis=1,
+                                                 keepdims=True))
     near = (xx - left >= -a) & (xx - right <= a)
     with np.errstate(divide="ignore", invalid="ignore"):
       t = np.abs(xx - left) / ln
